@@ -4,6 +4,8 @@ import (
 	"fmt"
 	"github.com/KevoDB/kevo/pkg/verifhook"
 	"os"
+	"path/filepath"
+	"sort"
 	"sync"
 )
 
@@ -72,8 +74,27 @@ func (f *DefaultFileTracker) CleanupObsoleteFiles() error {
 	f.filesMu.Lock()
 	defer f.filesMu.Unlock()
 
-	// Safely remove obsolete files that aren't pending
+	// Delete the oldest files first (deeper level, then older timestamp): a crash
+	// between two deletions must never leave an older input file above the
+	// finished output, where it would shadow the newer version
+	paths := make([]string, 0, len(f.obsoleteFiles))
 	for path := range f.obsoleteFiles {
+		paths = append(paths, path)
+	}
+	sort.Slice(paths, func(i, j int) bool {
+		var li, lj int
+		var si, sj uint64
+		var ti, tj int64
+		fmt.Sscanf(filepath.Base(paths[i]), "%d_%06d_%020d.sst", &li, &si, &ti)
+		fmt.Sscanf(filepath.Base(paths[j]), "%d_%06d_%020d.sst", &lj, &sj, &tj)
+		if li != lj {
+			return li > lj
+		}
+		return ti < tj
+	})
+
+	// Safely remove obsolete files that aren't pending
+	for _, path := range paths {
 		// Skip files that are still being used in a compaction
 		if f.pendingFiles[path] {
 			continue
